@@ -50,6 +50,7 @@ type Result struct {
 	Assumptions []string
 	Extra       map[string]interface{}
 	floors      map[string]int
+	seen        map[string]int
 }
 
 func NewResult(prop string) *Result {
@@ -57,6 +58,15 @@ func NewResult(prop string) *Result {
 }
 
 func (r *Result) Add(o *Obligation) *Obligation {
+	// keys must be unique: repeated constructs in one function get an ordinal (source order)
+	if r.seen == nil {
+		r.seen = map[string]int{}
+	}
+	base := o.Key()
+	r.seen[base]++
+	if n := r.seen[base]; n > 1 {
+		o.Construct = fmt.Sprintf("%s #%d", o.Construct, n)
+	}
 	r.Obligations = append(r.Obligations, o)
 	return o
 }
